@@ -1,5 +1,5 @@
 import UtilModel.Lemmas.DateText
-import UtilModel.Lemmas.CodeTies
+import UtilModel.Lemmas.CodeTiesDate
 /-!
 # C09 — Date parser accepts only real calendar dates and keeps their components
 
